@@ -18,6 +18,7 @@ OBLIGATIONS = [
     (P + "segmentation_independent_http", "HTTP: segmentation independence for all byte streams whose header sections fit the cap (the unrestricted statement is false of the code and recorded as such)"),
     (P + "limits_admit_wf", "the three 16 KiB limits regenerated from the source are the bound used in the well-formedness predicates (16384)"),
     (P + "fcgi_roundtrip", "FastCGI round trip: WF request, name-value block cut into PARAMS records anywhere, body cut into STDIN records anywhere, any padding 0..255, either length encoding, any segmentation -> exactly the peer's environment and body stream reach the request layer"),
+    (P + "keepalive_sequence_fcgi", "FastCGI keep-alive: well-formed requests with FCGI_KEEP_CONN back to back (each framed freely, any segmentation) are each delivered exactly, in order"),
     (P + "frontends_agree_scgi_fcgi", "the same environment and body over SCGI and over FastCGI (any framing/segmentation) have the same fate"),
     (P + "http_header_lines_roundtrip", "HTTP (generated parser): plain header lines reach the per-header code unchanged, one by one, in order; then process_request; body left unread (partial: no folded/quoted headers, no inverse of header canonicalisation / percent-decoding)"),
     (P + "scgi_roundtrip", "SCGI round trip: WF request encoded by the peer, any segmentation -> exactly the peer's environment (pairs, order) and body stream reach the request layer"),
